@@ -11,7 +11,7 @@ func init() {
 	register(&Check{
 		ID:    "C13",
 		Level: "exploration",
-		Rule: "a bucket is prepared with 0-4 unmerged versions (writers that never refresh, with deletes so that vacuum would have work, trees of 1-4 levels); a table created with the readonly option then runs a random program of 15-40 steps: SELECTs, s3db_refresh, s3db_version, s3db_changes between recorded versions, s3db_vacuum with cutoffs before/between/after all stamps, INSERT/UPDATE/DELETE inside and outside transactions, while a writer keeps committing in between. " +
+		Rule: "a bucket is prepared with 0-4 unmerged versions (writers that never refresh, with deletes so that vacuum would have work, trees of 1-4 levels; in a quarter of the multi-version cases the writers run identical statements, so that the merge of their versions changes nothing); a table created with the readonly option then runs a random program of 15-40 steps: SELECTs, s3db_refresh, s3db_version, s3db_changes between recorded versions, s3db_vacuum with cutoffs before/between/after all stamps, INSERT/UPDATE/DELETE inside and outside transactions, while a writer keeps committing in between. " +
 			"Monitor: the store's online assertion fires on any PUT or DELETE issued through a handle opened read-only (the flag is taken from the table's own options by hook H1); write statements must fail; the dump must not change across a refused write or maintenance attempt. " +
 			"non-trivial = the read-only open had >=2 unmerged versions to merge and at least one write, vacuum and refresh attempt ran; distinct = hash of the program",
 		Flavours: []string{"plain"},
@@ -48,11 +48,20 @@ func runC13(c *Case) {
 		c.Violate("C13:create", err.Error(), nil)
 		return
 	}
+	// twins: every writer runs the same statements with the same write times, so the unmerged
+	// versions hold identical rows and merging them changes nothing (a merged tree that is clean)
+	twins := nver >= 2 && (c.Index/5)%4 == 3
+	if twins {
+		c.Count("cases_with_identical_unmerged_versions", 1)
+	}
 	if nver > 0 {
 		nst := r.Range(6, 40)
 		times := r.Perm(nst + 2)
 		for i := 0; i < nst; i++ {
 			wi := r.Intn(nw)
+			if twins {
+				wi = 0
+			}
 			s := HStmt{W: wi, Key: 1 + r.Intn(12), T: 10 + times[i]}
 			switch x := r.Intn(10); {
 			case x < 5:
@@ -67,6 +76,14 @@ func runC13(c *Case) {
 			if _, err := w.exec(s); err != nil {
 				c.Violate("C13:setup-error", err.Error(), w.log)
 				return
+			}
+			for wj := 1; twins && wj < nw; wj++ {
+				s2 := s
+				s2.W = wj
+				if _, err := w.exec(s2); err != nil {
+					c.Violate("C13:setup-error", err.Error(), w.log)
+					return
+				}
 			}
 		}
 	}
